@@ -39,8 +39,11 @@ open Op2.Gen.Formulas in
 /-- `ImageHeader::CalcPixelByteWidth` / `CalculatePitch` as translated from the current source are the model's
     formulas on the whole argument range (negative widths included) -/
 theorem C08_gen_pitch (bits : Nat) (w : Int) (hb : bits < 65536) :
-    gen_CalcPixelByteWidth (bits : Int) w = (pixByteWidth bits w : Nat) ∧ gen_CalculatePitch (bits : Int) w = (pitch bits w : Nat) :=
-  ⟨gen_CalcPixelByteWidth_eq bits w hb, gen_CalculatePitch_eq bits w hb⟩
+    (gen_CalcPixelByteWidth_translated && gen_CalculatePitch_translated) = true →
+    gen_CalcPixelByteWidth (bits : Int) w = (pixByteWidth bits w : Nat) ∧ gen_CalculatePitch (bits : Int) w = (pitch bits w : Nat) := by
+  intro h
+  have h1 : gen_CalcPixelByteWidth_translated = true := by revert h; cases gen_CalcPixelByteWidth_translated <;> simp
+  exact ⟨gen_CalcPixelByteWidth_eq bits w hb h1, gen_CalculatePitch_eq bits w hb h⟩
 
 open Op2.Gen.Layout in
 /-- the on-disk records are laid out as the model's serialisers write them, and the default constants are the model's -/
